@@ -99,9 +99,10 @@ WellTypedStmt(stmt) ==
 (* Single static faults.  LocalFaults(e, want) = trees obtained from e by ONE fault at its root:
    a leaf of a type the position forbids, an unknown function, one argument too many / too few. *)
 
-WrongLeaves(want) == CASE want = "S" -> {AInt(1), ABool(TRUE)}
-                       [] want = "N" -> {AStr(<<120>>), ABool(TRUE)}
-                       [] want = "B" -> {AStr(<<120>>), AInt(1)}
+\* operands of a kind the position forbids: leaves, and calls returning that kind
+WrongLeaves(want) == CASE want = "S" -> {AInt(1), ABool(TRUE), ACall("is_int", <<AStr(<<55>>)>>), ACall("split", <<AStr(<<120>>), AStr(<<44>>)>>)}
+                       [] want = "N" -> {AStr(<<120>>), ABool(TRUE), ACall("is_int", <<AStr(<<55>>)>>), ACall("upper", <<AStr(<<120>>)>>)}
+                       [] want = "B" -> {AStr(<<120>>), AInt(1), ACall("upper", <<AStr(<<120>>)>>), ACall("strlen", <<AStr(<<120>>)>>)}
                        [] OTHER -> {}
 
 LocalFaults(e) ==
